@@ -363,6 +363,219 @@ fn c10_post(plan: &mut LPlan, seed: u64) {
     }
 }
 
+/// Adversarial / corrupted datagrams on every uplink in every link state.
+fn inject_arbitrary(plan: &mut LPlan, seed: u64, index: u64, count: u64) {
+    use crate::lsim::plan::{Action, TimedAction, hex};
+    let mut r = crate::prng::Rng::new(seed ^ 0xADE5);
+    let known: [u16; 16] = [0x9000, 0x9100, 0x9200, 0x9201, 0x9202, 0x9210, 0x9211, 0x9212, 0x8000, 0x8001, 0x8002, 0x8003, 0x8005, 0x8006, 0x0000, 0x7FFF];
+    for k in 0..count {
+        let t = r.range(0, plan.horizon_ms);
+        let link = r.below(plan.n_links as u64) as usize;
+        // type code: sweep the 16-bit space across runs, plus known codes
+        let ty: u16 = match r.below(4) {
+            0 => ((index * count + k) % 65536) as u16,
+            1 => r.below(65536) as u16,
+            _ => *r.pick(&known),
+        };
+        let len = match r.below(8) {
+            0 => r.range(0, 3),
+            1 => r.range(4, 24),
+            2 => *r.pick(&[8u64, 10, 16, 19, 20, 21, 37, 38, 39, 44, 257, 258, 259]),
+            3 => r.range(1000, 1500),
+            _ => r.range(2, 120),
+        } as usize;
+        let mut b = vec![0u8; len];
+        r.fill(&mut b);
+        if len >= 2 {
+            b[0] = (ty >> 8) as u8;
+            b[1] = ty as u8;
+        }
+        // make some of them meaningful: timestamps near now, sequence numbers near the stream
+        if ty == 0x9000 && len >= 10 && r.chance(0.7) {
+            let now = plan.time_base_ms + t;
+            let ts = match r.below(5) {
+                0 => 0,
+                1 => now + r.range(1, 5000),
+                2 => now.saturating_sub(r.range(10_001, 40_000)),
+                3 => now,
+                _ => now.saturating_sub(r.range(1, 900)),
+            };
+            b[2..10].copy_from_slice(&ts.to_be_bytes());
+        }
+        if (ty == 0x8003 || ty == 0x9100) && len >= 8 {
+            let base = plan.client.start_seq;
+            for c in b[4..].chunks_exact_mut(4) {
+                if r.chance(0.7) {
+                    let mut v = base.wrapping_add(r.range(0, 3000) as u32) & 0x7FFF_FFFF;
+                    if ty == 0x8003 && r.chance(0.2) {
+                        v |= 0x8000_0000;
+                    }
+                    c.copy_from_slice(&v.to_be_bytes());
+                }
+            }
+        }
+        if ty == 0x8002 && len >= 20 && r.chance(0.7) {
+            let v = plan.client.start_seq.wrapping_add(r.range(0, 3000) as u32) & 0x7FFF_FFFF;
+            b[16..20].copy_from_slice(&v.to_be_bytes());
+        }
+        plan.actions.push(TimedAction { t, kind: Action::Inject { link, hex: hex(&b), delay: r.range(0, 20) } });
+    }
+    plan.actions.sort_by_key(|a| a.t);
+}
+
+/// Systematic corruption schedule: every known type code truncated to every length <= 24.
+fn inject_truncations(plan: &mut LPlan, seed: u64) {
+    use crate::lsim::plan::{Action, TimedAction, hex};
+    let mut r = crate::prng::Rng::new(seed ^ 0x7A0C);
+    let known: [u16; 14] = [0x9000, 0x9100, 0x9200, 0x9201, 0x9202, 0x9210, 0x9211, 0x8000, 0x8001, 0x8002, 0x8003, 0x8006, 0x0000, 0x4000];
+    for ty in known {
+        for len in 0..=24usize {
+            let mut b = vec![0u8; len];
+            r.fill(&mut b);
+            if len >= 1 {
+                b[0] = (ty >> 8) as u8;
+            }
+            if len >= 2 {
+                b[1] = ty as u8;
+            }
+            let t = r.range(0, plan.horizon_ms);
+            let link = r.below(plan.n_links as u64) as usize;
+            plan.actions.push(TimedAction { t, kind: Action::Inject { link, hex: hex(&b), delay: 0 } });
+        }
+    }
+    plan.actions.sort_by_key(|a| a.t);
+}
+
+fn c09_profile(index: u64) -> Profile {
+    let mut p = Profile::base("c09");
+    p.p_fault_free = 0.2;
+    p.net_loss = index % 2 == 0;
+    p.blackholes = index % 3 == 0;
+    p.client_sock_faults = true;
+    p.receiver_restart = index % 5 == 0;
+    p.low_stall_threshold_bias = true;
+    p.horizon_hi_ms = 12_000;
+    p
+}
+
+fn c09_post(plan: &mut LPlan, seed: u64) {
+    let idx = seed % 4096;
+    let mut r = crate::prng::Rng::new(seed ^ 0x0909);
+    inject_arbitrary(plan, seed, idx, r.range(50, 600));
+    if r.chance(0.25) {
+        // a run in which the client never speaks: nothing may reach the client socket
+        plan.actions.retain(|a| {
+            !matches!(
+                a.kind,
+                crate::lsim::plan::Action::Burst { .. }
+                    | crate::lsim::plan::Action::Rexmit { .. }
+                    | crate::lsim::plan::Action::ClientControl { .. }
+            )
+        });
+    }
+    if r.chance(0.3) {
+        plan.recv.mode = "silent".into();
+    }
+}
+
+fn c14_profile(index: u64) -> Profile {
+    let mut p = Profile::base("c14");
+    p.p_fault_free = 0.2;
+    p.net_loss = true;
+    p.blackholes = index % 3 == 0;
+    p.link_loss = index % 3 == 1;
+    p.send_faults = index % 4 == 0;
+    p.stalls = true;
+    p.timeouts = true;
+    p.horizon_lo_ms = 8_000;
+    p.horizon_hi_ms = 40_000;
+    p.max_bursts = 3;
+    p
+}
+
+fn c14_post(plan: &mut LPlan, seed: u64) {
+    use crate::lsim::plan::{Action, TimedAction, hex};
+    let mut r = crate::prng::Rng::new(seed ^ 0x1414);
+    // forged echoes: zero / future / stale / truncated / trailing garbage / duplicates
+    for _ in 0..r.range(5, 60) {
+        let t = r.range(2_000, plan.horizon_ms);
+        let now = plan.time_base_ms + t;
+        let len = *r.pick(&[2usize, 9, 10, 10, 11, 38, 38, 38, 60, 200]);
+        let mut b = vec![0u8; len];
+        r.fill(&mut b);
+        b[0] = 0x90;
+        b[1] = 0x00;
+        if len >= 10 {
+            let ts = match r.below(7) {
+                0 => 0,
+                1 => now + r.range(1, 20_000),
+                2 => now.saturating_sub(r.range(10_001, 60_000)),
+                3 => now.saturating_sub(10_000),
+                4 => now,
+                _ => now.saturating_sub(r.range(1, 1200)),
+            };
+            b[2..10].copy_from_slice(&ts.to_be_bytes());
+        }
+        let link = r.below(plan.n_links as u64) as usize;
+        plan.actions.push(TimedAction { t, kind: Action::Inject { link, hex: hex(&b), delay: 0 } });
+    }
+    plan.actions.sort_by_key(|a| a.t);
+}
+
+fn c15_profile(index: u64) -> Profile {
+    let mut p = Profile::base("c15");
+    p.p_fault_free = 0.3;
+    p.net_loss = true;
+    p.blackholes = index % 4 == 0;
+    p.horizon_hi_ms = 10_000;
+    p
+}
+
+fn c15_post(plan: &mut LPlan, seed: u64) {
+    let idx = seed % 4096;
+    inject_arbitrary(plan, seed, idx, 400);
+    inject_truncations(plan, seed);
+    inject_ack_nak_noise(plan, seed, 10, 40);
+}
+
+fn c19_profile(index: u64) -> Profile {
+    let mut p = Profile::base("c19");
+    p.p_fault_free = 0.0;
+    p.reloads = true;
+    p.net_loss = index % 3 == 0;
+    p.blackholes = index % 4 == 0;
+    p.collisions = index % 3 == 1;
+    p.horizon_lo_ms = 8_000;
+    p.horizon_hi_ms = 20_000;
+    p
+}
+
+fn c19_post(plan: &mut LPlan, seed: u64) {
+    use crate::lsim::plan::{Action, TimedAction, gen_reload_text};
+    let mut r = crate::prng::Rng::new(seed ^ 0x1919);
+    // several reloads per run, inside traffic
+    let (lo, hi) = traffic_window(plan);
+    for _ in 0..r.range(1, 5) {
+        let t = r.range(lo.min(hi - 1), hi);
+        plan.actions.push(TimedAction { t, kind: Action::Reload { text: gen_reload_text(&mut r, plan.n_links) } });
+    }
+    // bind failures for addresses a reload may add
+    if r.chance(0.3) {
+        let link = r.range(0, 10) as usize;
+        plan.actions.push(TimedAction { t: r.range(0, lo), kind: Action::BindFail { link, on: true } });
+        if r.chance(0.5) {
+            plan.actions.push(TimedAction { t: r.range(lo, hi), kind: Action::BindFail { link, on: false } });
+        }
+    }
+    // duplicates among the existing links
+    if r.chance(0.2) && plan.n_links >= 2 {
+        let mut ips: Vec<String> = (0..plan.n_links).map(|i| crate::lsim::path_ip(i).to_string()).collect();
+        ips[plan.n_links - 1] = ips[0].clone();
+        plan.ips = ips;
+    }
+    plan.actions.sort_by_key(|a| a.t);
+}
+
 pub fn all() -> Vec<Box<dyn Check>> {
     vec![Box::new(LCheck {
         id: "C01",
@@ -440,5 +653,66 @@ pub fn all() -> Vec<Box<dyn Check>> {
             "which link a NAK was charged to is taken from observation (C05 judges it)",
         ],
         probes: &["c10.decision", "c10.srtla_ack", "c10.nak", "c10.must_land_packet", "c10.housekeeping"],
+    }),
+    Box::new(LCheck {
+        id: "C09",
+        level: "fault_enumeration",
+        profile: c09_profile,
+        post: Some(c09_post),
+        monitors: || vec![Box::new(crate::mon::c09::C09::new())],
+        quick_runs: 400,
+        thorough_runs: 20_000,
+        rule: "one run = one seeded closed-loop plan plus 50..600 adversarial datagrams (type codes swept over the whole 16-bit space across runs, lengths 0..1500, truncated ACK/NAK/keepalive, forged timestamps and sequence numbers) injected on every uplink in every link state, before and after the client address is known, with WouldBlock and hard errors injected on the client socket. A relay ledger at the client seam, a liveness-stamp differential and a delivery-proof rule are evaluated after every step; any panic outside the simulator is a violation. Non-trivial = at least one uplink datagram was classified; distinct = distinct event-log hashes among non-trivial runs",
+        assumptions: &[
+            "SRTLA-internal is decided by type code alone (REG2, REG3, REG_ERR, REG_NGP, SRTLA ACK, keepalive), whatever the length",
+            "a datagram is excused only if every delivery attempt for it hit an injected hard error on the client socket",
+            "the 3-line instant-forward task is mirrored: what it would send is counted as delivered",
+        ],
+        probes: &["c09.relayable_datagram", "c09.internal_datagram", "c09.runt_datagram", "c09.unknown_type_relayed", "c09.no_client_yet", "c09.instant_forward_path", "c09.proof_by_earned_ack", "c09.proof_by_keepalive"],
+    }),
+    Box::new(LCheck {
+        id: "C14",
+        level: "fault_enumeration",
+        profile: c14_profile,
+        post: Some(c14_post),
+        monitors: || vec![Box::new(crate::mon::c14::C14::new())],
+        quick_runs: 400,
+        thorough_runs: 15_000,
+        rule: "one run = one seeded closed-loop plan (1..4 uplinks, up to 40 s) with late / stalled housekeeping ticks, link loss and resets, failing sends, and echoes that are timely, late, duplicated, truncated (< 10 bytes), carry zero / future / > 10 s old timestamps or trailing bytes (forged echoes are injected on top of the receiver's verbatim ones). Cadence is checked tick by tick on the socket seam in virtual time, every keepalive frame is reference-decoded against the link's pre-step state, and the RTT state may change across a keepalive step iff a probe was outstanding and 0 < now - ts <= 10000. Non-trivial = at least one keepalive or echo was judged; distinct = distinct event-log hashes among non-trivial runs",
+        assumptions: &[
+            "a keepalive counts as sent when it is handed to the socket (an injected send error does not excuse the cadence)",
+            "RTT samples taken from cumulative SRT ACKs are outside the statement; steps that also carry an SRT ACK are not judged for the sampling rule",
+        ],
+        probes: &["c14.keepalive_sent", "c14.keepalive_due", "c14.echo", "c14.unsolicited_echo", "c14.sample_taken", "c14.invalid_echo_timing", "c14.truncated_echo"],
+    }),
+    Box::new(LCheck {
+        id: "C15",
+        level: "exploration",
+        profile: c15_profile,
+        post: Some(c15_post),
+        monitors: || vec![Box::new(crate::mon::c15::C15::new())],
+        quick_runs: 300,
+        thorough_runs: 10_000,
+        rule: "wire tap over closed-loop runs: every datagram crossing the simulated network in either direction (legitimate traffic, 400 adversarial datagrams per run with type codes swept across runs, forged ACK/NAK lists with wide ranges, and a systematic corruption schedule of every known type code truncated to every length 0..24) is decoded by the real decoders and by an in-tree reference codec and the results compared; every REG1/REG2/keepalive frame the sender emits is checked against its exact layout. Non-trivial = at least one short (<= 24 byte) datagram or NAK was decoded; distinct = distinct event-log hashes among non-trivial runs",
+        assumptions: &[
+            "restricted claim: the simulator decides the codec only on datagrams that cross the simulated network (including its corruptor); totality over all byte strings of length 0..1500 is sampled, not enumerated",
+            "NAK entries start after a 4-byte header, the layout the repository's decoder, builders and tests use",
+        ],
+        probes: &["c15.short_datagram", "c15.nak_decoded", "c15.reg_frame", "c15.keepalive_frame"],
+    }),
+    Box::new(LCheck {
+        id: "C19",
+        level: "fault_enumeration",
+        profile: c19_profile,
+        post: Some(c19_post),
+        monitors: || vec![Box::new(crate::mon::c19::C19::new())],
+        quick_runs: 400,
+        thorough_runs: 15_000,
+        rule: "one run = one seeded closed-loop plan with 1..5 reloads mid-stream through the mirrored SIGHUP arm (analyze_ip_reload on a real temp file that is missing / empty / whitespace / garbage / mixed / duplicated / IPv4+IPv6) and the real apply_connection_changes at the next tick; old and new address sets overlap, are disjoint or equal, some runs start with duplicate addresses, and binds of new addresses fail by injection. Exact snapshots around the apply call are compared: survivors (identity, socket, full Debug state, order), removed links (list, I/O map, NAK-attribution lookups for numbers they carried), additions (once, in order) and the routing choice. Non-trivial = at least one SIGHUP was judged; distinct = distinct event-log hashes among non-trivial runs",
+        assumptions: &[
+            "a parsable address is one std::net::IpAddr::from_str accepts after trimming",
+            "an IPv6 uplink towards the IPv4 receiver cannot be created in this sandbox and may be absent after a reload",
+        ],
+        probes: &["c19.sighup", "c19.refused", "c19.accepted", "c19.applied", "c19.removed", "c19.added", "c19.survivor_mid_stream"],
     })]
 }
